@@ -154,6 +154,11 @@ class CallGraph:
                                     targets.append(m[1])
             elif isinstance(f, ast.Attribute) and isinstance(f.value, ast.Name) and f.value.id in ("self", "cls") and ci is not None:
                 targets += self._methods(ci, f.attr)
+            elif isinstance(f, ast.IfExp) and ci is not None:
+                # (self.a if cond else self.b)(...)
+                for alt in (f.body, f.orelse):
+                    if isinstance(alt, ast.Attribute) and isinstance(alt.value, ast.Name) and alt.value.id == "self":
+                        targets += self._methods(ci, alt.attr)
             for t in targets:
                 out.append((n, t))
         self._edges[func] = out
